@@ -316,6 +316,11 @@ int main(int argc, char **argv)
                 if (hf) {
                         uint64_t rec[3] = {idx, o.res.hash, (uint64_t)nontrivial};
                         fwrite(rec, sizeof rec, 1, hf);
+                        // enumerated fault positions are cases of their own: key = run index in the low 24 bits of the top
+                        for (auto &vh : o.variant_hashes) {
+                                uint64_t r2[3] = {(idx << 36) | (1ULL << 35) | (vh.first & 0x7ffffffffULL), vh.second, (uint64_t)nontrivial};
+                                fwrite(r2, sizeof r2, 1, hf);
+                        }
                 }
                 if (determinism) {
                         Outcome o2 = check_plan(prop, p);
